@@ -47,10 +47,13 @@ def make(name):
     if name == 'nodemodel':
         from sim.engines.nodemodel import NodeModel
         return NodeModel()
+    if name == 'dumphist':
+        from sim.engines.dumphist import DumpHist
+        return DumpHist()
     if name == 'world':
         from sim.engines.world import World
         return World()
     raise KeyError(name)
 
 
-BY_PROP = {'C08': 'cbfault', 'C11': 'world', 'C12': 'iosim', 'C14': 'nodemodel'}
+BY_PROP = {'C06': 'dumphist', 'C08': 'cbfault', 'C11': 'world', 'C12': 'iosim', 'C14': 'nodemodel'}
